@@ -74,7 +74,7 @@ def family():
     for label, prog, meta in F.fam_clone_markers():
         yield label, prog, dict(kind="clonemarkers")
     for label, prog, meta in F.fam_pairs():
-        if q and not ("@0+" in label and label.endswith("first-None")) and not ("@2+" in label and "@0/first-f2" in label):
+        if q and not ("@0+" in label and label.endswith("first-None") and "@2/first" not in label):
             continue
         yield label, prog, dict(kind="pairs")
     for label, prog, meta in F.fam_selfbids():
